@@ -48,6 +48,9 @@ def rung_sizes(sched) -> List[List[int]]:
     return out
 
 
+WRONG_CONVENTION = -999
+
+
 def searcher_state_event(sched) -> dict:
     """Projection of the public ``searcher.state_transformer.state`` to (observations, pending evaluations);
     observation values are mapped back to the reported convention."""
@@ -55,7 +58,14 @@ def searcher_state_event(sched) -> dict:
     srch = sched.searcher
     srch = getattr(srch, "_searcher_int", srch)       # DyHPO wraps a GP multi-fidelity searcher
     state = srch.state_transformer.state
-    rev = (lambda x: x) if srch.map_reward is None else srch.map_reward.reverse
+    # The data set holds metrics in the MINIMISATION convention: with mode "max" the searcher has to hold a decreasing
+    # map (the library's are 1 - x and -x), with "min" none or an increasing one.  Values stored under another
+    # convention are projected to WRONG_CONVENTION (no reported value), so the monitor sees them as foreign values.
+    mr = srch.map_reward
+    if getattr(sched, "mode", "min") == "max":
+        rev = mr.reverse if (mr is not None and mr(1.0) < mr(0.0)) else (lambda x: WRONG_CONVENTION)
+    else:
+        rev = (lambda x: x) if mr is None else (mr.reverse if mr(1.0) > mr(0.0) else (lambda x: WRONG_CONVENTION))
     obs = []
     for ev in state.trials_evaluations:
         vals = ev.metrics.get(INTERNAL_METRIC_NAME, {})
